@@ -52,13 +52,14 @@ Print Assumptions C05_terminate_alone.
 (* the reason handed to unregisterProcess (hence to links and monitors) and to the terminate
    callback reflects a cause that occurred: 'kill' only if some Node.Kill executed its swap,
    'panic' only if the callback of a handled message panicked, any other reason only if the
-   callback of a handled message returned exactly that error *)
+   callback of a handled message returned exactly that error or an exit signal carrying it was
+   taken from the mailbox *)
 Theorem C05_reason : forall sched named lim fb selfs initok others r,
   Forall (fun p => init_pc p = true) others ->
   let c := reach sched named lim fb selfs initok others in
   treason (sh c) = Some r ->
   (r = rkill /\ killed (sh c) = true) \/
-  (exists m, In (mid m) (handled (sh c)) /\ (mbeh m = BErr r \/ (mbeh m = BPanic /\ r = rpanic))).
+  (exists m, In (mid m) (handled (sh c)) /\ (mbeh m = BErr r \/ mbeh m = BExit r \/ (mbeh m = BPanic /\ r = rpanic))).
 Proof. intros. eapply reason_reflects_cause; eauto. Qed.
 Print Assumptions C05_reason.
 
